@@ -199,6 +199,25 @@ def discr_arms(body, f, sb):
     return sc[1], sc[2], arms, t[4]
 
 
+def arm_context(body, f, local, blk):
+    """variant names of all enum-match arms on places rooted in `local` that block `blk` lies under
+    (arm target entered only from its switch and dominating blk)"""
+    out = set()
+    for sb, t, place in place_switches(body, local):
+        arms = discr_arms(body, f, sb)
+        if not arms:
+            continue
+        for name, tgt in arms[2].items():
+            if sole_pred(body, tgt, sb) and mir.block_dominates(body, tgt, blk):
+                out.add(name)
+        other = arms[3]
+        if other is not None and not mir.otherwise_is_unreachable(body, sb):
+            rest = set(variant_names(body, f, arms[1]).values()) - set(arms[2])
+            if len(rest) == 1 and sole_pred(body, other, sb) and mir.block_dominates(body, other, blk):
+                out.add(rest.pop())
+    return out
+
+
 def in_cycle(body, b):
     """block b can reach itself"""
     s = mir.succs(body)
